@@ -272,6 +272,38 @@ def run_rot(ctx, cases):
     return dis
 
 
+def run_sweep(ctx):
+    """thorough tier: EVERY binary32 value in [0,1) x it=1..4 through the real calcCoefficiants (an exhaustive
+    enumeration of that finite domain on the implementation; it supports the ring theorems, it does not replace them)"""
+    tg = ctx.build()
+    rc, out, err = run_driver(tg["impl_kick"], "".join("coeffsweep s%d %d 16\n" % (it, it) for it in (1, 2, 3, 4)), timeout=3000)
+    if rc != 0:
+        raise RuntimeError("coeffsweep failed: " + err[-500:])
+    r = parse_cases(out)
+    tot = 0
+    for it in (1, 2, 3, 4):
+        c = r["s%d" % it]
+        n = int(c["n"][0][0])
+        ms, fs = float.fromhex(c["maxsum"][0][0]), c["maxsum"][0][1]
+        mm, fm = float.fromhex(c["maxmom"][0][0]), c["maxmom"][0][1]
+        tot += n
+        if n != 0x3f800000:
+            raise RuntimeError("sweep did not cover all floats in [0,1)")
+        if ms > 8 * 2.0 ** -24:
+            ctx.violation("impl-oracle", "interpolation weights do not sum to one", case=dict(kind="coeffs", it=it, f=fs), observed=ms,
+                          expected="<= 8*2^-24", sig=dict(kind="coeffs", clause="unity", it=it))
+        if mm > 16 * 2.0 ** -24:
+            ctx.violation("impl-oracle", "n-point weights do not reproduce a monomial of degree below n", case=dict(kind="coeffs", it=it, f=fm),
+                          observed=mm, expected="<= 16*2^-24", sig=dict(kind="coeffs", clause="moments", it=it))
+        if c["zero"][0][0] != "1":
+            ctx.violation("impl-oracle", "weights at offset zero are not a single unit weight", case=dict(kind="coeffs", it=it, f="0x0p+0"),
+                          sig=dict(kind="coeffs", clause="unit-at-zero", it=it))
+        ctx.extra.setdefault("float_sweep", {})["it%d" % it] = dict(floats=n, max_sum_error=ms, at=fs, max_moment_error=mm, at_m=fm)
+    ctx.evaluations += tot
+    ctx.count("coeffs:exhaustive-sweep", tot)
+    ctx.notes.append("all %d binary32 values in [0,1) x 4 orders evaluated through SourceMap::calcCoefficiants (exhaustive for that domain)" % 0x3f800000)
+
+
 def run(ctx):
     ctx.rule = ("kick cases: n 4..33, both directions, it 1..4, nb 1..3, streams exact (offsets k/16, integer data, bit equality), "
                 "whole (integer offsets, arbitrary data, bit equality), tol (arbitrary floats, K*2^-24*cond), polynomial fields; "
@@ -295,6 +327,8 @@ def run(ctx):
     ctx.sample(cases[0].describe())
     ctx.sample(dict(pc[0].describe(), coef=pc[0].coef))
     dis += run_coeffs(ctx, coeff_cases(ctx, 400 if ctx.quick() else 40000))
+    if not ctx.quick():
+        run_sweep(ctx)
     rc = rot_cases(ctx, 40 if ctx.quick() else 600)
     dis += run_rot(ctx, rc)
     ctx.sample(rc[0].replay() if rc[0].coef is not None else dict(rc[0].replay(), data="(random integers)"))
